@@ -58,11 +58,11 @@ check("C15", "internal/zzverif/c15",
 check("C20", "internal/zzverif/c20",
       rule="shuffle: every length 0..1100 x {identity, repeated core-like values, random} x random/zero entropy compared with an iterative Fisher-Yates model driven by Q_l(h)=LE32 words of blake2b(h||E4(i/8)) (x/crypto), permutation and determinism checks; "
            "assignment: NewGuranatorAssignments for every slot of 3 epochs, tiny (V=6,C=2) and full (V=1023,C=341), vs model (shuffle of floor(C*i/V), rotated by (slot mod E)/R), per-core share, +1 core per rotation period, repeat-call equality. "
-           "distinct_nontrivial = distinct (length>=2, entropy) shuffles + distinct (mode, entropy, slot) assignments",
+           "G / G* stratum: extrinsic.GFunc and GStarFunc on a posterior state (tau', eta', kappa', lambda') for the slots of the same three epochs (all tiny, every 7th full): G == (P(eta'2, tau'), kappa'), G* == (P(e, tau'-R), k) with (eta'2, kappa') when tau'-R lies in the epoch of tau' and (eta'3, lambda') otherwise (slots below R not judged). distinct_nontrivial = distinct (length>=2, entropy) shuffles + distinct (mode, entropy, slot) assignments",
       technique="reference-model monitor (Fisher-Yates / rotation model) + invariant monitor (permutation, share, rotation), every length 0..1100",
       level_text="Differential run against an independent model on every length 0..1100 and every slot of three epochs under both parameter sets; held = no divergence on what was explored.",
       note="Trusts the F.1-F.3 model in harness/internal/zzverif/c20. Cross-process determinism follows from equality with the deterministic model in every shard process.",
-      shards=(8, 16), floors={"any": {"shuffles": 3000, "assignments_tiny": 100, "assignments_full": 1000, "rotation_pairs": 500}},
+      shards=(8, 16), floors={"any": {"shuffles": 3000, "assignments_tiny": 100, "assignments_full": 1000, "rotation_pairs": 500, "g_and_gstar_compared": 400, "gstar_from_the_previous_epoch": 20}},
       exhaustive="all sequence lengths 0..1100; all slots of 3 epochs (tiny and full)", assumptions=[STANDIN_VRF])
 
 check("C29", "internal/zzverif/c29",
